@@ -300,8 +300,10 @@ def run(check, repo: Repo) -> None:
         # early returns are only allowed under a guard that makes the stretch the identity
         for r in p.early_returns:
             par = getattr(r, "_parent", None)
+            # a guard conjunct is `self.p == <const>` or, for the value 0, its truthiness spelling `not self.p`
             ident = isinstance(par, ast.If) and all(
-                isinstance(c, ast.Compare) and isinstance(c.ops[0], ast.Eq) and isinstance(c.left, ast.Attribute) for c in
+                (isinstance(c, ast.Compare) and isinstance(c.ops[0], ast.Eq) and isinstance(c.left, ast.Attribute))
+                or (isinstance(c, ast.UnaryOp) and isinstance(c.op, ast.Not) and isinstance(c.operand, ast.Attribute) and dotted(c.operand.value) == "self") for c in
                 (par.test.values if isinstance(par.test, ast.BoolOp) and isinstance(par.test.op, ast.And) else [par.test]))
             check.decide(ident, "C20-R1", f"{name}.__call__: the pass-through return is guarded by parameter values that make the stretch the identity",
                          unparse(par.test) if isinstance(par, ast.If) else "", mod.line(r),
@@ -499,8 +501,8 @@ def run(check, repo: Repo) -> None:
             if cn in ("np.min", "np.max", "np.quantile", "np.percentile", "np.nanmin", "np.nanmax", "np.nanquantile", "np.amin", "np.amax", "np.ptp", "np.median") \
                     or (isinstance(c.func, ast.Attribute) and c.func.attr in ("min", "max") and unparse(c.func.value) == "values"):
                 n_red += 1
-                ok = bool(filtered) and all(f.lineno < c.lineno for f in filtered) and unparse(c.args[0] if c.args else c.func.value) == "values" \
-                    and not cn.startswith("np.nan")
+                # (a nan-aware reducer AFTER the finite filter is merely redundant: the filter already removed NaN and ±inf)
+                ok = bool(filtered) and all(f.lineno < c.lineno for f in filtered) and unparse(c.args[0] if c.args else c.func.value) == "values"
                 check.decide(ok, "C20-R5", f"{name}.get_limits: `{cn}` is taken over the finite values only", "", mod.line(c),
                              definite=cn.startswith("np.nan") and not filtered,      # a nan-aware reducer with no finite filter anywhere: ±inf provably reaches it
                              fail_detail=f"`{unparse(c)[:50]}` sees non-finite entries (no preceding `values = values[np.isfinite(values)]`; nan-aware reducers "
